@@ -4,6 +4,7 @@
 From Coq Require Import QArith List ZArith.
 Import ListNotations.
 From SedV Require Import Clamp FitCore Flags Fit3 PLin Interp Xnum FilterOut Grid FitModel Fit3Proofs.
+From SedV Require RadiusM ResolvedM.
 Open Scope Q_scope.
 
 (* the number of trial distances n = ceil(1 + L/step): at least both ends, spacing not above the step,
@@ -90,3 +91,62 @@ Theorem C02_masked : forall pen lo hi logds per_dist ms, per_dist <> [] ->
   g_pred r = map (fun x => g_av r * r_a x + r_lm x) rows /\
   ((exists i, (i < length per_dist)%nat /\ nth i ms false = false) -> nth b ms false = false).
 Proof. exact fit3_one_masked_spec. Qed.
+
+(* ---- remove_resolved: what the mask is (no property states what it should be; these say what the code computes) ---- *)
+
+(* find_radius_sigma for a given threshold: the last aperture if the outermost ring is above it; 0 if nothing is; otherwise the
+   point of the OUTERMOST interval (a, a'] whose inner ring is above the threshold where the straight line through the two
+   surface brightnesses meets the threshold *)
+Theorem C02_radius_sigma : forall thr aps sg, RadiusM.increasing aps -> (forall a, In a aps -> 0 < a) -> length sg = length aps ->
+  (thr < last sg 0 /\ RadiusM.radius_thr thr aps sg = last aps 0) \/
+  (Forall (fun x => x <= thr) sg /\ RadiusM.radius_thr thr aps sg = 0) \/
+  (exists a a' s s', RadiusM.crossing thr aps sg a a' s s' /\ RadiusM.radius_thr thr aps sg = RadiusM.cross thr a a' s s' /\
+                     a < RadiusM.radius_thr thr aps sg /\ RadiusM.radius_thr thr aps sg <= a' /\
+                     (RadiusM.radius_thr thr aps sg - a) * (s - s') == (s - thr) * (a' - a)).
+Proof. exact RadiusM.radius_thr_spec. Qed.
+
+(* with a fraction of the peak below one the radius is never 0: it lies between the first and the last aperture *)
+Theorem C02_radius_sigma_range : forall frac aps fl, RadiusM.increasing aps -> (forall a, In a aps -> 0 < a) -> length fl = length aps ->
+  aps <> [] -> 0 < frac -> frac < 1 -> 0 < hd 0 fl ->
+  hd 0 aps <= RadiusM.radius_sigma_m frac aps fl /\ RadiusM.radius_sigma_m frac aps fl <= last aps 0.
+Proof. exact RadiusM.radius_sigma_range. Qed.
+
+(* Models.read: in one band the trial distances at which a model counts as resolved are an initial segment of the grid *)
+Theorem C02_resolved_initial_segment : forall theta ds fl i j, 0 < theta -> RadiusM.increasing ds -> (i <= j)%nat ->
+  let aps := ResolvedM.aps_of theta ds in
+  let m := RadiusM.ext_mask aps (RadiusM.radius_sigma_m (1 # 2) aps fl) in
+  nth j m false = true -> nth i m false = true.
+Proof. exact ResolvedM.resolved_initial_segment. Qed.
+
+(* find_radius_cumul on a strictly growing curve of growth: the radius lies in the interval that brackets the requested share
+   of the total flux, where the linearly interpolated curve reaches it; outside the curve the end apertures are returned *)
+Theorem C02_radius_cumul : forall frac aps fl, RadiusM.increasing aps -> RadiusM.increasing fl -> length fl = length aps ->
+  hd 0 fl <= frac * last fl 0 -> frac * last fl 0 < last fl 0 ->
+  exists a a' f f', RadiusM.bracket (frac * last fl 0) aps fl a a' f f' /\
+    a <= RadiusM.radius_cumul_m frac aps fl /\ RadiusM.radius_cumul_m frac aps fl < a' /\
+    (RadiusM.radius_cumul_m frac aps fl - a) * (f' - f) == (frac * last fl 0 - f) * (a' - a).
+Proof. exact RadiusM.radius_cumul_spec. Qed.
+
+Theorem C02_radius_cumul_ends : forall frac aps fl,
+  (frac * last fl 0 < hd 0 fl -> frac * last fl 0 < last fl 0 -> RadiusM.radius_cumul_m frac aps fl = hd 0 aps) /\
+  (last fl 0 <= frac * last fl 0 -> RadiusM.radius_cumul_m frac aps fl = last aps 0).
+Proof. exact RadiusM.radius_cumul_ends. Qed.
+
+(* Models.read hands find_radius_sigma the apertures that ConvolvedFluxes.interpolate reset to the largest tabulated one; on strictly
+   increasing apertures the model with -inf surface brightnesses (RadiusM.radius_sigma_o) is the plain one *)
+Theorem C02_radius_sigma_repeated : forall frac aps fl, (forall a, In a aps -> 0 < a) -> RadiusM.increasing aps ->
+  length fl = length aps -> aps <> [] ->
+  RadiusM.radius_sigma_o frac aps fl = Some (RadiusM.radius_sigma_m frac aps fl).
+Proof. exact RadiusM.radius_sigma_o_increasing. Qed.
+
+(* whatever the fluxes: the radius never exceeds the largest aperture it was computed from ... *)
+Theorem C02_radius_sigma_le_last : forall frac aps fl r, RadiusM.nondecreasing aps -> (forall a, In a aps -> 0 < a) ->
+  length fl = length aps -> RadiusM.radius_sigma_o frac aps fl = Some r -> r <= last aps 0.
+Proof. exact RadiusM.radius_sigma_o_le_last. Qed.
+
+(* ... so remove_resolved never removes a model at a distance whose aperture lies at or beyond the largest tabulated one *)
+Theorem C02_resolved_not_beyond_table : forall tab theta ds col b i, (2 <= length tab)%nat -> 0 < tab_hi tab -> 0 < theta ->
+  RadiusM.increasing ds -> (forall d, In d ds -> 0 < d) -> length col = length ds -> ds <> [] ->
+  ResolvedM.band_res tab theta ds col = Some b ->
+  tab_hi tab <= nth i (ResolvedM.aps_of theta ds) 0 -> nth i (ResolvedM.b_mask b) false = false.
+Proof. exact ResolvedM.resolved_not_beyond_table. Qed.
